@@ -71,6 +71,7 @@ Section ML.
     | None => last
     | Some (a, b) =>
       let (ls, le) := locate ltb_ s a b in
+      if Nat.leb le ls then last else
       match last with
       | None => Some (ls, le)
       | Some (pls, ple) => if Nat.leb ls ple then Some (pls, le) else Some (ls, le)
@@ -105,6 +106,7 @@ Section ML.
     | Some (a, b) =>
       let c := ml_advance c s a b in
       let (ls, le) := locate ltb_ s a b in
+      if Nat.leb le ls then OK true c else
       match last with
       | None => OK true c
       | Some (pls, ple) =>
@@ -146,6 +148,7 @@ Section ML.
         apply inv_loop_eq.
     - destruct (ml_find M (ml_core m) s) as [[a b]|]; [|reflexivity].
       destruct (locate ltb_ s a b) as [ls le].
+      destruct (Nat.leb le ls); [reflexivity|].
       destruct (ml_last m) as [[pls ple]|]; [|reflexivity].
       destruct (Nat.leb ls ple); [reflexivity|].
       destruct (ml_sink_context cfg r (ml_advance (ml_core m) s a b) s pls) as [[|] c'| |];
@@ -267,6 +270,7 @@ Section ML.
       | Some (a, b) =>
         let c := ml_advance c s a b in
         let (ls, le) := locate ltb_ s a b in
+        if Nat.leb le ls then OK true c else
         match last with
         | None => OK true c
         | Some (pls, ple) =>
@@ -278,6 +282,7 @@ Section ML.
     - cbv zeta. destruct (locate ltb_ s a b) as [ls le].
       assert (Hadv : forall c, log (ml_advance c s a b) = log c).
       { intro c. unfold ml_advance. destruct (_ && _); reflexivity. }
+      destruct (Nat.leb le ls); [exact (good_ret (fun _ => true) (fun c => ml_advance c s a b) Hadv)|].
       destruct last as [[pls ple]|].
       + destruct (Nat.leb ls ple).
         * exact (good_ret (fun _ => true) (fun c => ml_advance c s a b) Hadv).
